@@ -22,7 +22,8 @@ ALPHA = 1e-9
 FAMILIES = vals.FAMILIES + ["two-field", "three-field", "long-key"]
 OFFSETS = [0, 10**6, 10**9, 2**31]
 SALTS = [None, "", "a", "b", "exp_2024"]
-VECTORS = {"11": ["1", "1"], "123": ["1", "2", "3"], "19": ["1", "9"], "hh": ["0.5", "0.5"], "ten": ["1"] * 10}
+VECTORS = {"11": ["1", "1"], "123": ["1", "2", "3"], "19": ["1", "9"], "hh": ["0.5", "0.5"], "ten": ["1"] * 10,
+           "eight125": ["12.5"] * 8, "six1666": ["16.66", "16.67"] * 3}
 
 
 def population(fam, off, m):
@@ -142,8 +143,50 @@ def _work(units):
     return acc.out()
 
 
+def _many_work(units):
+    """a service with N experiments (distinct salts, alternating weight vectors) that rebuilds ALL its evaluators at
+    every configuration poll: after the second poll each experiment must still split a population by ITS weights,
+    and exactly like the published scheme says"""
+    from .. import oracle
+
+    acc = progcheck.Acc()
+    for n_exp, m in units:
+        names = list(VECTORS)
+        texts, asts = [], []
+        for i in range(n_exp):
+            v = VECTORS[names[i % len(names)]]
+            ast = ("prog", f"experiment_{i:03d}", f"salt-{i}", ("uid",), ("ret", tuple((f"g{j}", w) for j, w in enumerate(v))))
+            asts.append(ast)
+            texts.append(rp.render(ast))
+        evs = None
+        for poll in (1, 2, 3):
+            evs = [impl.build(t) for t in texts]
+            acc.add("programs", n_exp)
+        pop = [{"uid": f"user-{k}"} for k in range(m)]
+        for i in list(range(0, n_exp, max(1, n_exp // 24))) + [n_exp - 1]:
+            b = evs[i]
+            if b[0] != "ok":
+                acc.violation({"kind": "stat:many", "case": {"experiments": n_exp, "index": i}, "text": texts[i], "observed": list(b)})
+                continue
+            bad = 0
+            for env in pop:
+                acc.add("evaluations")
+                if oracle.agree(impl.call(b[1], env), oracle.expected(asts[i], env)):
+                    bad += 1
+            acc.outcomes.add(("many", n_exp, i % len(names)))
+            if bad:
+                acc.violation({"kind": "stat:many", "case": {"experiments": n_exp, "index": i, "n": m}, "text": texts[i], "observed": f"{bad} of {m} units are not in the group the published scheme gives",
+                               "why": f"experiment #{i} of {n_exp} compiled in one process (3 configuration polls) no longer splits by its own salt / weights"})  # fmt: skip
+    return acc.out()
+
+
 def run(res, tier):
     chi2.selfcheck()
+    for w in pmap(_many_work, [(n, 1500) for n in ((40, 300) if tier == "quick" else (40, 300, 600, 1100))], chunk=1):
+        res.merge_worker(w)
+    from ..common import hostile_runs
+
+    hostile_runs(res, "mc.checks.c04", "_work", [["int", 0, ["eight125", "six1666"], [None], 150000], ["uuid", 0, ["123", "hh"], [None, "a"], 20000]])
     if tier == "quick":
         m = 20000
         units = [(f, o, ["11", "123", "ten", "hh"], [None, "a", "exp_2024"], m) for f in FAMILIES for o in (0, 10**9)]
@@ -159,6 +202,13 @@ def run(res, tier):
 
 def replay(data):
     c = data["case"]
+    if data.get("host_environment"):
+        from ..common import replay_in_host
+
+        return replay_in_host(data, "mc.checks.c04", "_work", [["int", 0, ["eight125", "six1666"], [None], 150000], ["uuid", 0, ["123", "hh"], [None, "a"], 20000]])
+    if data.get("kind") == "stat:many":
+        r = _many_work([(c["experiments"], c.get("n", 1500))])
+        return bool(r["viol"]), (r["viol"][0].get("why", "build failure") if r["viol"] else "every experiment follows its own definition")
     tog = c.get("compiled_together") or []
     vnames = sorted({k[0] for k in tog}) or [next(k for k, v in VECTORS.items() if v == c["weights"])]
     salts = list(dict.fromkeys([k[1] for k in tog])) or (c.get("salts") or [c.get("salt")])
